@@ -146,7 +146,9 @@ pub fn run_resp_case(c: &Value) -> Value {
                     if Some(lo) == hi && it.len() == lo { json!(["size", lo]) } else { json!(["size_mismatch", lo]) }
                 }
                 "n" => item(it.next()),
-                _ => item(it.next_back()),
+                "b" => item(it.next_back()),
+                m if m.starts_with('t') => item(it.nth(m[1..].parse().unwrap_or(0))),
+                m => item(it.nth_back(m[1..].parse().unwrap_or(0))),
             });
         }
     }
@@ -170,8 +172,16 @@ pub fn run_resp_case(c: &Value) -> Value {
                     let x = it.next();
                     item(x.as_ref().map(|r| r.as_ref()))
                 }
-                _ => {
+                "b" => {
                     let x = it.next_back();
+                    item(x.as_ref().map(|r| r.as_ref()))
+                }
+                m if m.starts_with('t') => {
+                    let x = it.nth(m[1..].parse().unwrap_or(0));
+                    item(x.as_ref().map(|r| r.as_ref()))
+                }
+                m => {
+                    let x = it.nth_back(m[1..].parse().unwrap_or(0));
                     item(x.as_ref().map(|r| r.as_ref()))
                 }
             });
